@@ -230,6 +230,15 @@ def run(F, tier, res):
                 cal = r[1]
                 if 'RegexReplacement' in cal or cal.endswith('::paint') or 'ANSIStrings' in cal or 'ANSIGenericString' in cal:
                     out.append(cal)
+                else:
+                    # a local helper whose result is such a transformation of its argument (`display_path(path, config)`)
+                    q_ = cal if cal in F.fn_bodies else (r[4].get('resolved') or '')
+                    if q_ in F.fn_bodies and depth < 2 and not q_.endswith('absolute_path'):
+                        for x in F.trace(q_, {'copy': {'l': 0, 'p': []}}, deep=True):
+                            if x[0] == 'call' and ('RegexReplacement' in x[1] or x[1].endswith('::paint') or 'ANSIStrings' in x[1]):
+                                out.append('%s (via %s)' % (x[1], q_.split('::')[-1]))
+                            elif x[0] == 'param' and x[2] and x[2][-1] in DISPLAY_ONLY:
+                                out.append('config.%s (via %s)' % (x[2][-1], q_.split('::')[-1]))
                 for a in r[4]['args']:
                     for rr in F.trace(fn, a):
                         if rr[0] == 'param' and rr[2] and rr[2][-1] in DISPLAY_ONLY:
